@@ -11,33 +11,52 @@ Local Open Scope N_scope.
 (** For every body made of at least one LF-terminated line without CR (lines may start with or consist
     of "."), every chunking of the client's reads and every network segmentation: the server-side
     message receives exactly the body's lines (after the server's header handling, [header_view]),
-    then eomReceived once, and the server is back in command mode with an empty line buffer. *)
+    then eomReceived once and the 250 reply, and the server is back in command mode with an empty line buffer. *)
 Theorem server_receives_exact_lines : forall (lines cs ns : list (list N)),
   lines <> [] -> Forall line_ok lines ->
   concat cs = unlines lines -> Forall (fun c => c <> []) cs ->
   concat ns = client_wire cs ->
-  snd (srun_chunks data_start ns) = map MsgLine (header_view lines) ++ [Eom]
+  snd (srun_chunks data_start ns) = map MsgLine (header_view lines) ++ [Eom; Reply 250]
   /\ in_data (fst (srun_chunks data_start ns)) = false
   /\ cur (fst (srun_chunks data_start ns)) = [].
 Proof. exact exact_lines. Qed.
 Print Assumptions server_receives_exact_lines.
 
+(** Whatever the message object does -- [rf] = Some k: its k-th lineReceived call raises SMTPServerError,
+    [ef]: its eomReceived fails -- the server stays in DATA state for the whole transfer: the message
+    gets its lines up to the refusal (then connectionLost and nothing more), and only the client's
+    terminating "." ends the transfer, answered 552 after a refusal, 550 / 250 after eomReceived. *)
+Theorem server_outcome_for_any_message_object :
+  forall (lines cs ns : list (list N)) (rf : option nat) (ef : bool),
+  lines <> [] -> Forall line_ok lines ->
+  concat cs = unlines lines -> Forall (fun c => c <> []) cs ->
+  concat ns = client_wire cs ->
+  snd (srun_chunks (data_start_with rf ef) ns) = outcome rf ef (header_view lines)
+  /\ in_data (fst (srun_chunks (data_start_with rf ef) ns)) = false
+  /\ cur (fst (srun_chunks (data_start_with rf ef) ns)) = [].
+Proof. exact any_message. Qed.
+Print Assumptions server_outcome_for_any_message_object.
+
 (** The transfer ends only at the client's terminating ".": after any proper prefix [p] of the client's
-    bytes the server has made nothing but IMessage.lineReceived calls (no eomReceived, no command). *)
-Theorem transfer_ends_only_at_terminator : forall (lines cs : list (list N)) (p q : list N),
+    bytes the server has made nothing but calls on the message object (lineReceived, possibly the refused
+    one and connectionLost): no eomReceived, no reply, no command -- for any message object. *)
+Theorem transfer_ends_only_at_terminator :
+  forall (lines cs : list (list N)) (p q : list N) (rf : option nat) (ef : bool),
   lines <> [] -> Forall line_ok lines ->
   concat cs = unlines lines -> Forall (fun c => c <> []) cs ->
   p ++ q = client_wire cs -> q <> [] ->
-  forallb is_msgline (snd (srun data_start p)) = true.
-Proof. exact only_lines_before_terminator. Qed.
+  forallb is_body_ev (snd (srun (data_start_with rf ef) p)) = true.
+Proof. exact only_body_before_terminator. Qed.
 Print Assumptions transfer_ends_only_at_terminator.
 
-(** No body content is ever handed to the SMTP command interpreter, at any point of the transfer. *)
-Theorem no_body_line_is_a_command : forall (lines cs : list (list N)) (p q : list N),
+(** No body content is ever handed to the SMTP command interpreter, at any point of the transfer, even
+    when the message object refuses a line part-way through the body. *)
+Theorem no_body_line_is_a_command :
+  forall (lines cs : list (list N)) (p q : list N) (rf : option nat) (ef : bool),
   lines <> [] -> Forall line_ok lines ->
   concat cs = unlines lines -> Forall (fun c => c <> []) cs ->
   p ++ q = client_wire cs ->
-  forallb no_cmd (snd (srun data_start p)) = true.
+  forallb no_cmd (snd (srun (data_start_with rf ef) p)) = true.
 Proof. exact never_a_command. Qed.
 Print Assumptions no_body_line_is_a_command.
 
@@ -53,7 +72,7 @@ Print Assumptions session_messages_independent.
 Theorem session_receives_exact_lines : forall (ms : list (list (list N) * list (list N))) (ls : bool),
   Forall msg_ok ms ->
   Forall2 (fun m w => forall ns, concat ns = w ->
-             snd (srun_chunks data_start ns) = map MsgLine (header_view (fst m)) ++ [Eom]
+             snd (srun_chunks data_start ns) = map MsgLine (header_view (fst m)) ++ [Eom; Reply 250]
              /\ in_data (fst (srun_chunks data_start ns)) = false)
           ms (session_wires ls (map snd ms)).
 Proof. exact session_exact_lines. Qed.
@@ -78,8 +97,8 @@ Print Assumptions server_segmentation_invariant.
     line (QUIT) is executed as a command. *)
 Theorem dot_at_chunk_start_refuted_on_pinned_code :
   snd (srun data_start (old_client_wire [[46; 10; 81; 85; 73; 84; 10]]))
-    = [Eom; CmdLine [81; 85; 73; 84]; CmdLine [46]]
+    = [Eom; Reply 250; CmdLine [81; 85; 73; 84]; CmdLine [46]]
   /\ snd (srun data_start (old_client_wire [[97; 10]; [46; 10; 81; 85; 73; 84; 10]]))
-    = [MsgLine []; MsgLine [97]; Eom; CmdLine [81; 85; 73; 84]; CmdLine [46]].
+    = [MsgLine []; MsgLine [97]; Eom; Reply 250; CmdLine [81; 85; 73; 84]; CmdLine [46]].
 Proof. exact pinned_code_refuted. Qed.
 Print Assumptions dot_at_chunk_start_refuted_on_pinned_code.
